@@ -7,7 +7,7 @@
     order.  [C19_canon_reorders_fields] shows [canon] only reorders fields. *)
 From Coq Require Import List NArith ZArith Lia Permutation.
 From PQ Require Import Base.Bytes Variant.Model Variant.Shred Variant.BaseLemmas
-  Variant.EncProofs Variant.ShredProofs.
+  Variant.EncProofs Variant.ShredProofs Variant.Header Variant.HeaderProofs.
 Import ListNotations.
 Open Scope N_scope.
 
@@ -81,6 +81,27 @@ Theorem C19_typed_leaf_roundtrip : forall t v p,
   wf_ptype t -> wf v -> to_parquet t v = Some p -> of_parquet t p = Some v.
 Proof. exact of_to_parquet. Qed.
 
+(** Headers as functions of sizes.  Containers of 16 MiB and dictionaries of
+    65 536 names are too large for the line protocol of the oracle; for those
+    the harness compares Go's header bytes with [array_header] /
+    [object_header] / [metadata_header] evaluated on the sizes of the
+    children, and Go's payload with the concatenation of the children.  These
+    are the prefixes the model encoder (the one of [C19_decode_encode]) emits. *)
+Theorem C19_array_header : forall encs,
+  build_array encs = array_header (map lenN encs) ++ concat encs.
+Proof. exact build_array_header. Qed.
+
+Theorem C19_object_header : forall es : list entry,
+  build_object es =
+  object_header (map (fun e : entry => N.of_nat (fst (snd e))) es)
+                (map (fun e : entry => lenN (snd (snd e))) es)
+  ++ concat (map (fun e : entry => snd (snd e)) es).
+Proof. exact build_object_header. Qed.
+
+Theorem C19_metadata_header : forall d,
+  encode_metadata d = metadata_header (sortedb d) (map lenN d) ++ concat d.
+Proof. exact encode_metadata_header. Qed.
+
 Print Assumptions C19_decode_encode.
 Print Assumptions C19_decode_encode_sorted.
 Print Assumptions C19_decode_encode_in_context.
@@ -91,6 +112,9 @@ Print Assumptions C19_reconstruct_shred.
 Print Assumptions C19_reconstruct_shred_bytes.
 Print Assumptions C19_row_dictionary.
 Print Assumptions C19_typed_leaf_roundtrip.
+Print Assumptions C19_array_header.
+Print Assumptions C19_object_header.
+Print Assumptions C19_metadata_header.
 
 (** * Non-vacuity *)
 
@@ -136,6 +160,21 @@ Example C19_ex_is_large :
   hd 0 (snd (encode (ex_many 255))) = 3 /\ hd 0 (snd (encode (ex_many 256))) = 3 + 4 * 1 + 16 /\
   (let '(m, b) := encode (ex_many 256) in decode m b) = Some (ex_many 256).
 Proof. vm_compute. repeat split; reflexivity. Qed.
+
+(* the offset width thresholds of offsetSizeCode, below / at / above each, and
+   the header of an array whose children total 2^24 bytes (two 8 MiB strings
+   and a small tail): 4-byte offsets, the last one 0x01000000 *)
+Example C19_ex_offset_size_code :
+  map offset_size_code [0; 254; 255; 256; 65534; 65535; 65536; 16777214; 16777215; 16777216; 268435455; 268435456; 4294967295]
+  = [0; 0; 0; 1; 1; 1; 2; 2; 2; 3; 3; 3; 3].
+Proof. vm_compute. reflexivity. Qed.
+
+Example C19_ex_array_header_2p24 :
+  array_header [8388613; 8388598; 5] =
+  [3 + 4 * 3; 3; 0; 0; 0; 0; 5; 0; 128; 0; 251; 255; 255; 0; 0; 0; 0; 1] /\
+  array_header [8388613; 8388597; 5] =
+  [3 + 4 * 2; 3; 0; 0; 0; 5; 0; 128; 250; 255; 255; 255; 255; 255].
+Proof. vm_compute. split; reflexivity. Qed.
 
 (* a partially shredded object: "a" is typed as an object with an int8 field
    that mismatches (goes to a.value... here b is a bool), "b" as a list of
